@@ -1,6 +1,8 @@
 package props
 
 import (
+	"os"
+	"strconv"
 	"pgregory.net/rapid"
 
 	"github.com/elementsproject/peerswap/verifsim/rt"
@@ -88,6 +90,13 @@ func genPlan(t *rapid.T, o genOpts) *world.Plan {
 	}
 	if o.clnAdapters == 0 {
 		o.clnAdapters = 30 // default share of cln-flavoured nodes running the real clightning adapter (tier 3); negative = none
+	}
+	if v, err := strconv.Atoi(os.Getenv("VERIF_TIER3_PCT")); err == nil && v > 0 {
+		// development aid: concentrate a batch on the clightning adapter
+		o.clnAdapters = v
+		if len(o.flavors) > 1 {
+			o.flavors = []string{"cln", "cln", "lnd"}
+		}
 	}
 	if o.adapters == 0 {
 		o.adapters = 40 // default share of lnd-flavoured nodes running the real adapter (tier 2); negative = none
